@@ -26,7 +26,7 @@ class Prop:
     props_file = 'Props/C02.v'
     ops_field = 'ops'
     required_theorems = ['cmp_code_refines_spec', 'hops_code_refines_spec', 'decision_order_total_preorder', 'dest_sorted_reachable',
-                         'best_eligible_maximal', 'ranking_order_independent', 'limited_and_ecmp_are_prefixes', 'ecmp_code_refines_spec', 'rs_local_best']
+                         'best_eligible_maximal', 'ranking_order_independent', 'limited_and_ecmp_are_prefixes', 'ecmp_code_refines_spec', 'rs_local_best', 'adj_in_view']
     extra_targets = ['Model/Rib.vo']
     correspondence_name = 'Model/Rib.v step vs rustybgp_table::Table (harness/hx-rib)'
     rule = ('histories of insert/replace/remove/drop/stale marks/purges/next-hop flips over 3 prefixes, 3 peers (each with a restarted '
@@ -164,6 +164,33 @@ class Prop:
             for net in locd:
                 if net not in ref.paths:
                     return 'step %d: Loc-RIB lists prefix %d which holds no path' % (k, net)
+            # read-only views: the limited Loc-RIB collection is the head of the ranking; the
+            # Adj-RIB-In view of a peer and the soft-reset input are its paths in the RIB
+            if len(st) > 7:
+                lim1, lim2, adj = st[7]
+                for m, lv in ((1, lim1), (2, lim2)):
+                    got = {x[0]: [(p[0], p[1], p[2]) for p in x[1]] for x in lv}
+                    want = {x[0]: [(p[0], p[1], p[2]) for p in x[5]][:m] for x in loc}
+                    if got != want:
+                        return 'step %d: collect_loc_rib_paths_limited(%d) gives %s, the first %d paths of the Loc-RIB are %s' % (k, m, got, m, want)
+                addr_of = {}
+                for o2 in c['ops']:
+                    if o2[0] in ('ins', 'rem'):
+                        addr_of[o2[1][0]] = o2[1][1]
+                for a, per in adj:
+                    if sorted(r[0] for r in per) != sorted(seen):
+                        return 'step %d: Adj-RIB-In view of peer %d lists prefixes %s, the RIB holds %s' % (k, a, sorted(r[0] for r in per), sorted(seen))
+                    for net, adj_f, adj_t, soft_f, soft_t in per:
+                        mine = [e for e in seen[net] if addr_of.get(e[1]) == a]
+                        if [list(e[:4]) for e in mine] != adj_t:
+                            return 'step %d: Adj-RIB-In view (with filtered) of peer %d for prefix %d is %s, its paths in the RIB are %s' % (k, a, net, adj_t, mine)
+                        if [list(e[:4]) for e in mine if not e[3]] != adj_f:
+                            return 'step %d: Adj-RIB-In view of peer %d for prefix %d is %s, its accepted paths in the RIB are %s' % (k, a, net, adj_f, [e for e in mine if not e[3]])
+                        nh_of = {(p['src'][0], p['rpid']): p['nh'] for p in ref.paths.get(net, {}).values()}
+                        want_t = [[e[0], e[1], [] if nh_of.get((e[1], e[0])) is None else [nh_of[(e[1], e[0])]]] for e in mine]
+                        want_f = [w for w, e in zip(want_t, mine) if not e[4]]
+                        if soft_t != want_t or soft_f != want_f:
+                            return 'step %d: soft-reset input of peer %d for prefix %d is %s / %s, expected %s / %s' % (k, a, net, soft_f, soft_t, want_f, want_t)
         return None
 
     def in_known_class(self, kf, c, obs, why):
